@@ -51,10 +51,18 @@ def make_pool(rng, work):
         "nofor correct #%d=0\"a\" \"a\"#%d=1\nnofor correct #%d=1\"a\" \"aa\"\n" % (v[5], v[5], v[5]) +
         "noback context #%d=0\"c\" @14#%d=1\nnoback context #%d=1\"c\" @14-14\n" % (v[6], v[6], v[6]) +
         "nofor pass4 #%d=0@1 @1#%d=1\nnofor pass4 #%d=1@1 @1-1\n" % (v[7], v[7], v[7]))
+    # W: counters (comparison, increment, decrement): the third and later occurrence in ONE call is treated differently; a count
+    # that survives a call would shift that
+    w = [rng.range(0, nv - 1), nv - 1, rng.range(0, nv - 1)]
+    (work / "W.utb").write_text(
+        "space \\s 0\nletter a 1\nletter b 12\nletter c 14\nletter d 145\n"
+        "noback pass2 #%d<2@1 @1#%d+\nnoback pass2 #%d>=2@1 @1-1\n" % (w[0], w[0], w[0]) +
+        "nofor pass2 #%d<=1@14 @14#%d+\nnofor pass2 #%d>1@14 @14-14#%d-\n" % (w[1], w[1], w[1], w[1]) +
+        "noback correct #%d<1\"d\" \"d\"#%d+\nnoback correct #%d>0\"d\" \"dd\"\n" % (w[2], w[2], w[2]))
     # G: characters that get their display mapping from a `grouping' rule only: whether the display part of a list is
     # compiled alone (lou_charToDots / lou_dotsToChar first) or together with the translation part must not matter
     (work / "G.utb").write_text("space \\s 0\nlowercase a 1\nlowercase b 12\ngrouping paren () 126,345\nsign - 36\n")
-    lists += [str(work / n) for n in ("A.utb", "B.utb", "C.utb", "D.utb", "V.utb", "V.utb", "G.utb", "G.utb")]
+    lists += [str(work / n) for n in ("A.utb", "B.utb", "C.utb", "D.utb", "V.utb", "V.utb", "W.utb", "W.utb", "G.utb", "G.utb")]
     for i in range(2):
         r = rng.fork(("emph", i))
         text, _al = tablegen.gen_emphasis_table(r)
